@@ -38,5 +38,8 @@ def run(ctx):
     # in-memory history of a key when there is one - a persisted history is loaded only for an absent key, and a table rollback
     # visits cached and persisted keys through that loader
     T.clause_retrieve_cache(R, F)
+    # "commit at any boundary, or never, changes no later answer": whether a deep reorg is refused must not depend on it - the
+    # recorded maximum height only grows (after a reorg and one new block it would otherwise admit a reorg below pruned history)
+    T.clause_max_monotone(R, F)
     W2.clause_table_reorg_visits_all(R, F)
     return R
